@@ -164,14 +164,17 @@ def _cases(ctx: Ctx) -> tuple[list[tuple[list[int], list[int]]], dict, list[dict
                    "invariants RefIsBest, PermutationInvariant; each emitted with its acceptable indices")
     table = r.tagged("TABLE")[0][0]
     prefix = r.tagged("PREFIX")[0][0]
-    nsim = ctx.pick(400, 6000)
-    rs = run_tlc("MC_Dns", "MC_Dns_sim.cfg", rundir=ctx.rundir, workers=4, simulate=f"num={nsim}", depth=6, seed=ctx.seed + 1,
+    # in -simulate TLC evaluates the CONSTRAINT (= emission) on all 18 successors of the state a walk is in, so one
+    # walk of depth 5 emits a random 4-record prefix extended by each of the 18 possible 5th records
+    nsim = ctx.pick(25, 400)
+    rs = run_tlc("MC_Dns", "MC_Dns_sim.cfg", rundir=ctx.rundir, workers=1, simulate=f"num={nsim}", depth=6, seed=ctx.seed + 1,
                  tag="sim")
     require_ok(rs, "Dns generator simulation length 5")
-    sim = [(c[0], sorted(c[1])) for c in rs.tagged("CASE")]
-    if len(sim) < nsim // 2 or any(len(c[0]) != 5 for c in sim):
+    sim = sorted({(tuple(c[0]), tuple(sorted(c[1]))) for c in rs.tagged("CASE")})
+    sim = [(list(a), list(b)) for a, b in sim]
+    if len(sim) < 9 * nsim or any(len(c[0]) != 5 for c in sim):
         raise MachineryError(f"simulation emitted {len(sim)} length-5 cases for num={nsim}")
-    ctx.add_tlc(rs, f"MC_Dns simulate num={nsim}: answer sequences of length 5, same invariants")
+    ctx.add_tlc(rs, f"MC_Dns simulate num={nsim}: {len(sim)} answer sequences of length 5, same invariants")
     targets = rs.tagged("TARGETS")[0][0]
     return cases + sim, table, targets, prefix
 
